@@ -284,7 +284,7 @@ ADDED = {
     "C05": "Later additions: `agg msg` (several records in ONE data set through the library's encoder and the real collector decoder into AggregateMsgByFlowKey), permuted element order, records lacking correlate fields, aggregation configurations with permuted element lists, crash-only sessions for records whose template lacks any element the aggregation reads (found and fixed D19, D20).",
     "C06": "Later additions: `agg msg`, refused records for held flows (the scheduling must not change), hundreds of flows due in one scan; callbacks_earliest_deadline_first (the callbacks of a whole scan come in non-decreasing order of the queued deadline, Lemmas/SchedOrder.lean).",
     "C07": "Later additions: records that LACK correlate fields (CorrV.absent, mergeV; absent_action_not_consulted, absent_action_ready_at_once, merged_complete over the three presence cases; found and fixed D18), 16-byte IPv4 values, both nodes' records in one data set, a second node's record that the statistics update refuses, retry bound theorems over all histories.",
-    "C08": "Later additions: refresh passes inside the sessions; the counter's atomicity under the concurrent refresher is pinned in C14 (tie_sequence_counter_advances_atomically).",
+    "C08": "Later additions: refresh passes inside the sessions; the counter's atomicity under the concurrent refresher is pinned in C14 (tie_sequence_counter_advances_atomically); sent_message_parses (the one message of a successful SendSet, read by the independent parser: reported byte count, export time, new counter value, domain, one set covering the rest).",
     "C09": "Later additions: the connection's Write may fail or be short (sendBuiltW, failed_write_registers_nothing, data_only_after_template_WRITTEN; `exp failnext`), JSON-mode sessions judged for their refusals (sendBuiltJ, json_mode_refuses_like_ipfix, json_refusal_writes_nothing); a Write that returns the full count with an error; the application gives values to the elements of a template it has sent.",
     "C10": "Later additions: the model's atomic steps are pinned to the source by facts from tools/timerfacts (tie_add_template_is_one_locked_step, tie_expiry_assigned_before_timer_armed, tie_callback_is_one_conditional_delete, tie_conditional_delete_order, tie_expiryTime_accessors); collectors configured without a lifetime (effectiveTTL, default_lifetime_is_the_template_ttl_constant); week-long lifetimes; tie_production_clock_is_the_standard_timer.",
     "C11": "Later additions: read deadlines armed by the reader are made to expire whenever it has to wait for a segment; the collector runs with a TemplateTTL and the harness's clock, `fr tick` fires whatever a TCP collector scheduled (nothing may be).",
